@@ -14,7 +14,7 @@ from ..model import call_many
 from ..pool import guarded, run_cases
 
 THEOREMS = ["C16_closed_emit", "C16_crud_exact", "C16_path_params_declared", "C16_bulk_key_refuted", "C16_bulk_key_ok_example",
-            "C16_closed_nonvacuous"]
+            "C16_closed_nonvacuous", "C16_entities_are_the_fenced_words", "C16_entities_example", "C16_entities_refuted"]
 HTTP = ("get", "put", "post", "delete", "patch", "trace", "options", "head")
 NAMES1 = ["Foo", "Bar", "Item", "Order", "Widget"]
 NAMES2 = ["UserProfile", "user_profile", "order_item_tbl", "HTTPLog", "foo_tbl", "Api2Key"]
@@ -382,8 +382,24 @@ def run(ctx):
             ctx.item("C16/bulk/operations%s%s" % (tag, many), {"stage": "gen_routes -> upsert_routes -> openapi_bulk", "input": job,
                                                               "clause": "operations present are exactly those requested",
                                                               "detail": {"got": ops(doc), "expected": exp}})
+    # Model/Entities.v (C16_entities_*) against extract_entities on generated texts
+    EA = ["Config", "Pet2", "owner_tbl", "ServerError", "```", "`", " ", "\n", "$ref:", "A", "object.", "'200':", "x", "```Oauth2```", "```a_b```", "  "]
+    etexts = ["".join(ctx.rng.choice(EA) for _ in range(ctx.rng.randint(0, 9))) for _ in range(400 if ctx.quick else 10000)] + \
+        ["$ref: ```Config```\n$ref: ```ServerError```", "```Config```s", "`Config`", "``````"]
+    from cdd.compound.openapi.utils.parse_utils import extract_entities as _ee
+    ebad = []
+    for t_, m_ in zip(etexts, call_many("extract_entities", etexts)):
+        try:
+            i_ = list(_ee(t_))
+        except Exception as e:  # noqa
+            i_ = "raises " + type(e).__name__
+        if i_ != m_:
+            ebad.append({"input": t_, "impl": i_, "model": m_})
     if not ctx.violations:
-        if corr:
+        if ebad:
+            ctx.violation({"stage": "correspondence: Model/Entities.v vs extract_entities", "input": ebad[0]["input"],
+                           "impl_output": ebad[0]["impl"], "model_output": ebad[0]["model"], "n_disagreements": len(ebad)}, no_input=True)
+        elif corr:
             ctx.violation({"stage": "correspondence: Model/OpenApi.v vs cdd.compound.openapi.emit.openapi", "input": corr[0]["input"],
                            "impl_output": corr[0]["impl"], "model_output": corr[0]["model"]}, no_input=True)
         elif kbad:
@@ -401,7 +417,7 @@ def run(ctx):
         "rule": "emit.openapi: 1..3 entries (single/multi-word names, repeated names, colliding routes, 9 CRUD spellings, 4 id names, "
                 "generated model schemas) compared as JSON with the extracted model and checked for closure; bulk: generated SQLAlchemy "
                 "model files -> gen_routes -> upsert_routes -> openapi_bulk in a child process; every case distinct by construction",
-        "emit_cases": agg["n"], "emit_cases_with_collisions": agg["with_collision"], "emit_disagreements": len(corr),
+        "emit_cases": agg["n"], "emit_cases_with_collisions": agg["with_collision"], "emit_disagreements": len(corr), "entity_texts_compared_with_model": len(etexts),
         "bulk_runs": len(bulk), "bulk_documents_checked": bulk_ok, "traces_validated_against_impl": agg["n"],
         "samples": [cases[0], bulk[0]["job"]["models"] if bulk and "job" in bulk[0] else None],
         "build": {k: status[k] for k in ("build_s", "forbidden")},
